@@ -50,10 +50,11 @@ def meet(a, b):
 
 
 class State:
-    __slots__ = ("v", "alias", "dead", "on_escape")
+    __slots__ = ("v", "alias", "dead", "on_escape", "var")
 
     def __init__(self):
         self.v = {}
+        self.var = {}     # enum local -> name of the variant it is known to hold
         self.alias = {}   # local -> var it mirrors (e.g. local holding len(key))
         self.dead = False
         self.on_escape = None
@@ -62,6 +63,7 @@ class State:
         s = State()
         s.v = dict(self.v)
         s.alias = dict(self.alias)
+        s.var = dict(self.var)
         s.dead = self.dead
         s.on_escape = self.on_escape
         return s
@@ -85,10 +87,11 @@ class State:
             self.v[var] = m
 
     def kill_local(self, l):
-        for k in [k for k in self.v if (k[0] in ("l", "some", "pay", "it", "f") and k[1] == l) or (k[0] in ("len", "mbstart") and k[1][0] == l)]:
+        for k in [k for k in self.v if (k[0] in ("l", "some", "pay", "it", "f", "lp") and k[1] == l) or (k[0] in ("len", "mbstart") and k[1][0] == l)]:
             if k[0] == "f" and self.on_escape is not None:
                 self.on_escape(k, self.v[k])
             del self.v[k]
+        self.var.pop(l, None)
         self.alias.pop(l, None)
         for k in [k for k, a in self.alias.items() if (a[0] == "l" and a[1] == l) or (a[0] in ("len", "empty", "issome", "isnone", "below", "below_opt") and a[1][0] == l)]:
             del self.alias[k]
@@ -100,10 +103,29 @@ class State:
         if self.dead:
             self.v = dict(other.v)
             self.alias = dict(other.alias)
+            self.var = dict(other.var)
             self.dead = False
             self.on_escape = other.on_escape
             return True
         changed = False
+        # a component below a variant (`(l as Ok).0...`) is a conditional fact: it survives a join with a state in
+        # which l is known to hold a different variant (the Err written by `?` in a spliced helper)
+        for k, vv in other.v.items():
+            if k[0] == "lp" and k not in self.v and k[2] and k[2][0].startswith("@"):
+                sv = self.var.get(k[1])
+                if sv is not None and sv != k[2][0][1:]:
+                    self.v[k] = vv
+                    changed = True
+        keep = set()
+        for k in self.v:
+            if k[0] == "lp" and k not in other.v and k[2] and k[2][0].startswith("@"):
+                ov = other.var.get(k[1])
+                if ov is not None and ov != k[2][0][1:]:
+                    keep.add(k)
+        for l in list(self.var.keys()):
+            if other.var.get(l) != self.var[l]:
+                del self.var[l]
+                changed = True
         # a field var tracked on one side only: the other side still holds the (assumed) invariant
         for k, vv in other.v.items():
             if k[0] == "f" and k not in self.v:
@@ -112,6 +134,8 @@ class State:
                     self.v[k] = inv
                     changed = True
         for k in list(self.v.keys()):
+            if k in keep:
+                continue
             if k not in other.v:
                 inv = invariant_of(k) if k[0] == "f" else None
                 if inv is not None:
@@ -207,6 +231,19 @@ def field_var(place):
     return ("f", place["l"], tuple(path))
 
 
+def lp_path(projs):
+    """Path of a projection list made of fields and downcasts only (no deref / index), else None."""
+    out = []
+    for e in projs:
+        if e["k"] == "field":
+            out.append(str(e["i"]))
+        elif e["k"] == "downcast":
+            out.append("@" + str(e.get("v", e.get("i"))))
+        else:
+            return None
+    return tuple(out)
+
+
 class Intervals:
     def __init__(self, body, field_inv=None, param_inv=None, param_len=None):
         self.body = body
@@ -276,6 +313,13 @@ class Intervals:
         # payload of Some
         if len(proj) == 2 and proj[0]["k"] == "downcast" and proj[1]["k"] == "field" and proj[1]["i"] == 0:
             v = st.get(("pay", place["l"]))
+            if v is not None:
+                m = meet(v, tr)
+                return tr if m == "bottom" else m
+        # component of a structured local value (tuple in Ok(..) in a `?` result, ...)
+        lpp = lp_path(proj)
+        if lpp is not None:
+            v = st.get(("lp", place["l"], lpp))
             if v is not None:
                 m = meet(v, tr)
                 return tr if m == "bottom" else m
@@ -487,12 +531,69 @@ class Intervals:
             return fv
         return None
 
+    def _subtree_of_place(self, st, sp):
+        """{relative path: interval} of the tracked components below a place (fields / downcasts of a local)."""
+        base = lp_path(sp.get("p", []))
+        if base is None:
+            return {}
+        out = {}
+        n = len(base)
+        for kk, vv in st.v.items():
+            if kk[0] == "lp" and kk[1] == sp["l"] and kk[2][:n] == base:
+                out[kk[2][n:]] = vv
+        return out
+
+    def _subtree_of_rv(self, st, rv):
+        k = rv["k"]
+        if k == "use":
+            sp = op_place(rv["op"])
+            return self._subtree_of_place(st, sp) if sp is not None else {}
+        if k == "aggregate" and rv.get("agg") in ("tuple", "adt"):
+            out = {}
+            for i, o in enumerate(rv["ops"]):
+                if rv.get("agg") == "adt" and rv.get("is_enum"):
+                    pre = ("@" + str(rv.get("variant")), str(i))
+                else:
+                    pre = (str(i),)
+                sp = op_place(o)
+                oty = self.body.place_ty(sp) if sp is not None else None
+                if (oty is not None and oty.int_range() is not None) or o.get("k") == "const":
+                    iv = self.op_itv(st, o)
+                    if iv is not None and isinstance(iv, tuple):
+                        out[pre] = iv
+                if sp is not None:
+                    for q, vv in self._subtree_of_place(st, sp).items():
+                        if q:
+                            out[pre + q] = vv
+            return out
+        return {}
+
     def assign(self, st, stmt):
         body = self.body
         place = stmt["place"]
         rv = stmt["rv"]
         proj = place.get("p", [])
+        if rv["k"] in ("ref", "rawptr") and rv.get("mut"):
+            # the components of a local whose address is taken mutably can change behind our back
+            for kk in [k for k in st.v if k[0] == "lp" and k[1] == rv["place"]["l"]]:
+                del st.v[kk]
         if proj:
+            lpp = lp_path(proj)
+            if lpp is not None:
+                sub = self._subtree_of_rv(st, rv)
+                for kk in [k for k in st.v if k[0] == "lp" and k[1] == place["l"] and k[2][:len(lpp)] == lpp]:
+                    del st.v[kk]
+                if body.place_ty(place).int_range() is not None:
+                    iv = self._rv_itv(st, rv, body.place_ty(place))
+                    if iv is not None:
+                        st.set(("lp", place["l"], lpp), iv)
+                for q, vv in sub.items():
+                    if q:
+                        st.set(("lp", place["l"], lpp + q), vv)
+            else:
+                # store through a deref / index: forget the components of that local
+                for kk in [k for k in st.v if k[0] == "lp" and k[1] == place["l"]]:
+                    del st.v[kk]
             # store through a projection: only tuple-field of local is tracked
             if len(proj) == 1 and proj[0]["k"] == "field" and body.place_ty(place).int_range() is not None:
                 st.set(("l", place["l"], proj[0]["i"]), self._rv_itv(st, rv, body.place_ty(place)))
@@ -557,7 +658,20 @@ class Intervals:
                 lk = st.get(("len", (sl, ())))
                 if lk is not None:
                     lenv = lk
+        sub_lp = self._subtree_of_rv(st, rv)
+        newvar = None
+        if k == "aggregate" and rv.get("agg") == "adt" and rv.get("is_enum"):
+            newvar = str(rv.get("variant"))
+        elif k == "use":
+            spv = op_place(rv["op"])
+            if spv is not None and not spv.get("p"):
+                newvar = st.var.get(spv["l"])
         st.kill_local(l)
+        if newvar is not None:
+            st.var[l] = newvar
+        for q, vv in sub_lp.items():
+            if q:
+                st.set(("lp", l, q), vv)
         if itv is not None:
             st.set(("l", l), itv)
         if alias is not None:
@@ -834,7 +948,29 @@ class Intervals:
                     rl = ret_len_summary(self.prog.by_did[cd])
                     if rl is not None:
                         extra[("len", (d, ()))] = rl
+        carried = {}
+        if callee_is(t, "Try::branch", "ops::Try>::branch") and args and op_place(args[0]) is not None:
+            # Continue(v) carries the payload of Ok(v) / Some(v)
+            for q, vv in self._subtree_of_place(st, op_place(args[0])).items():
+                if len(q) >= 2 and q[0] in ("@Ok", "@Some") and q[1] == "0":
+                    carried[("@Continue", "0") + q[2:]] = vv
+        branch_var = None
+        if callee_is(t, "Try::branch", "ops::Try>::branch") and args and op_place(args[0]) is not None and not op_place(args[0]).get("p"):
+            av = st.var.get(op_place(args[0])["l"])
+            if av in ("Ok", "Some"):
+                branch_var = "Continue"
+            elif av in ("Err", "None"):
+                branch_var = "Break"
         st.kill_local(d)
+        if branch_var is not None:
+            st.var[d] = branch_var
+        if callee_is(t, "FromResidual>::from_residual", "from_residual") and dty.k == "adt":
+            if dty.d["path"].endswith("result::Result"):
+                st.var[d] = "Err"
+            elif dty.d["path"].endswith("option::Option"):
+                st.var[d] = "None"
+        for q, vv in carried.items():
+            st.set(("lp", d, q), vv)
         if below is not None:
             alias = alias or below
         for a in args:
